@@ -51,6 +51,8 @@ def enc_val(ft, v):
         return [enc_val(f, x) for (_, f), x in zip(ft.inner, v)]
     if ft.kind == "option":
         return enc_val(ft.inner, v)
+    if isinstance(v, J.PSlice):
+        return {"ps": v.elem, "v": [enc_val(J.FT(v.elem, "", "", v.elem if v.elem not in ("i64",) else "u64", None), x) for x in v]}
     return v
 
 
@@ -94,6 +96,14 @@ def same_val(ft, exp, got):
         return isinstance(got, list) and len(got) == len(ft.inner) and all(same_val(f, e, g) for (_, f), e, g in zip(ft.inner, exp, got))
     if ft.kind == "option":
         return same_val(ft.inner, exp, got)
+    if isinstance(exp, dict) and "ps" in exp:
+        if not isinstance(got, list) or len(got) != len(exp["v"]):
+            return False
+        ek = "u64" if exp["ps"] in ("i64", "u64") else exp["ps"]
+        if ek in ("f32", "f64"):
+            # (an integral double comes back as a plain number)
+            return all(feq(e["f"], g["f"] if isinstance(g, dict) and "f" in g else (repr(float(g)) if isinstance(g, (int, float)) and not isinstance(g, bool) else "nan")) for e, g in zip(exp["v"], got))
+        return all(same_val(J.FT(ek, "", "", ek, None), e, g) for e, g in zip(exp["v"], got))
     if isinstance(exp, J.U8Str):
         # read back from the bytes that were written: an unpaired surrogate has become U+FFFD on the way in
         return got == J.utf8_of_js_string(exp).decode("utf-8")
@@ -258,9 +268,34 @@ def judge_wrapped(rep, abi, s, lay, meta, res, stats, cls):
                           "method returning %s around struct {%s}: is_ok=%d payload decoded as %s, Rust stored %s" % (sig, cls, flag, json.dumps(got)[:120], json.dumps(want)[:120]))
 
 
+def judge_probe(rep, abi, probe, stats):
+    """DiplomatBuf.slice / strs of the bundled runtime for every view kind, allocated at the very end of the wasm memory"""
+    if len(probe) < 13:
+        raise MachineryError("runtime probe incomplete: %s" % json.dumps(probe)[:300])
+    for r in probe:
+        stats["probe"] = stats.get("probe", 0) + 1
+        if "error" in r:
+            rep.violation("C08|runtime|slice-at-end-of-memory-throws|%s" % r["ty"], {"probe": r},
+                          "DiplomatBuf.%s of %d elements (%d bytes each) placed 64 bytes before the end of the wasm memory throws: %s" % (
+                              "strs" if r["ty"].startswith("strs") else "slice(%s)" % r["ty"], r["n"], r["elem"], r["error"]))
+            continue
+        want = {"size": r["n"] * r["elem"], "align": 4 if r["ty"].startswith("strs") else r["elem"]}
+        al = r.get("alloc") or {}
+        if (al.get("size"), al.get("align")) != (want["size"], want["align"]) or r["len"] != r["n"] or al.get("ptr") != r["ptr"]:
+            rep.violation("C08|runtime|slice-allocation|%s" % r["ty"], {"probe": r, "want": want},
+                          "DiplomatBuf.slice(%s): %d elements allocated as %s, reported length %s; need size %d align %d" % (r["ty"], r["n"], al, r["len"], want["size"], want["align"]))
+        elif not r["ty"].startswith("strs") and (r["back_len"] != r["n"] or r["back_last"] != r["want_last"]):
+            rep.violation("C08|runtime|slice-roundtrip|%s" % r["ty"], {"probe": r},
+                          "a %s list written by DiplomatBuf.slice reads back through DiplomatSlicePrimitive as length %s, last element %s (stored %s)" % (
+                              r["ty"], r["back_len"], r["back_last"], r["want_last"]))
+
+
 def judge(rep0, abi, structs, lay, meta, results, stats):
     byname = {s.name: s for s in structs}
     for res in results:
+        if res["name"] == "$runtime_probe":
+            judge_probe(rep0, abi, res["probe"], stats)
+            continue
         s = byname[res["name"]]
         rep = _Norm(rep0, abi, s, lay)
         l = lay[s.name]
@@ -297,6 +332,11 @@ def judge(rep0, abi, structs, lay, meta, results, stats):
                                   "struct {%s} value %s: bytes at offsets %s differ from the repr(C) layout (offset, want, got)" % (cls, encv, bad[:4]))
                 for (off, ft, v), sl in zip(slices, c["slices"]):
                     content, elem = slice_bytes(ft, v)
+                    al = sl.get("alloc")
+                    if content and al and (al["size"], al["align"]) != (len(content), elem):
+                        rep.violation("C08|%s|write|slice-allocation|elem=%s" % (abi, getattr(v, "elem", "u8/str")), {"struct": s.name, "vals": encv, "slice": sl, "want": [len(content), elem]},
+                                      "struct {%s}: the buffer of the slice field at offset %d was allocated with (size, align) = (%d, %d), the %d elements of %d bytes need (%d, %d)" % (
+                                          cls, off, al["size"], al["align"], len(content) // elem, elem, len(content), elem))
                     if sl["len"] != len(content) // elem or (content and sl["content"] != content.hex()):
                         rep.violation("C08|%s|write|slice|fields=%s" % (abi, cls), {"struct": s.name, "vals": encv, "slice": sl, "want": content.hex()},
                                       "struct {%s}: slice field at offset %d written as %s, want len %d content %s" % (cls, off, sl, len(content) // elem, content.hex()))
